@@ -108,10 +108,13 @@ def h_cg_custom(s, pool, initial, D):
     s.goal("cg.custom")
 
 
-def h_bp(s, W, sizes, D):
+def h_bp(s, W, sizes, D, fixed=None):
     Status = importlib.import_module("solvor.types").Status
     mod = importlib.import_module("solvor.bp")
-    dem = [s.concrete(s.int("demand%d" % i, 0, D)) for i in range(len(sizes))]
+    if fixed is not None:
+        dem = [s.int("demand%d" % i, v, v) for i, v in enumerate(fixed)]
+    else:
+        dem = [s.concrete(s.int("demand%d" % i, 0, D)) for i in range(len(sizes))]
     res = mod.solve_bp(list(dem), roll_width=W, piece_sizes=list(sizes))
     check_plan(s, "bp", res, dem, all_patterns(W, sizes), lambda p: sum(a * b for a, b in zip(p, sizes)) <= W, Status)
 
@@ -147,8 +150,9 @@ def items(tier, rng):
         out.append({"name": "cg_%d_%s" % (W, "_".join(map(str, sizes))), "harness": "h_cg", "params": {"W": W, "sizes": sizes, "D": D},
                     "max_paths": 600, "split": 4})
     for (W, sizes) in ([inst[0], inst[2], inst[3], inst[1], inst[4]] if q else inst):
-        out.append({"name": "bp_%d_%s" % (W, "_".join(map(str, sizes))), "harness": "h_bp", "params": {"W": W, "sizes": sizes, "D": Db},
-                    "split": 12 if len(sizes) > 1 else None, "validate": True})
+        for vec in itertools.product(range(Db + 1), repeat=len(sizes)):
+            out.append({"name": "bp_%d_%s" % (W, "_".join(map(str, sizes))), "harness": "h_bp",
+                        "params": {"W": W, "sizes": sizes, "D": Db, "fixed": list(vec)}})
     for pool, init in POOLS:
         out.append({"name": "cg_custom", "harness": "h_cg_custom", "params": {"pool": pool, "initial": init, "D": D}, "max_paths": 600})
         out.append({"name": "bp_custom", "harness": "h_bp_custom", "params": {"pool": pool, "initial": init, "D": Db}, "split": 2})
